@@ -24,7 +24,7 @@ RULE = ("a tree (directory input, recursive) or a lone file + settings (prefix, 
         "inputs before; distinct by SHA-1 of the case")
 ASSUMPTIONS = ["other inputs use names disjoint from the input under test so that every output path has one producer",
                "hash-seed runs use the real interpreter as a subprocess; all other runs are in-process"]
-BUDGET = {"quick": {"shards": 4, "examples": 60}, "thorough": {"shards": 16, "examples": 800}}
+BUDGET = {"quick": {"shards": 8, "examples": 50}, "thorough": {"shards": 16, "examples": 800}}
 
 STEPS = ["cwd-inside-sub", "same", "cwd-rel", "cwd-dotslash", "cwd-updown", "cwd-dot", "moved", "order", "hashseed", "others-before",
          "others-after", "others-both", "api-successive"]
